@@ -53,6 +53,7 @@ QUICK_CONFIGS = [
     Config("logistic", 4, 2, "gaussian-diagonal"),
     Config("logistic", 1, 0, "gaussian-scalar"),
     Config("logistic", 3, 1, "gaussian-scalar"),
+    Config("logistic", 2, 1, "gaussian-scalar"),  # the largest number of sources a model can have (dimension - 1)
     Config("linear", 3, 1, "gaussian-diagonal"),
     Config("shared_speed_logistic", 3, 1, "gaussian-diagonal"),
     Config("logistic", 3, 1, "bernoulli"),
